@@ -230,15 +230,44 @@ mkdir_proc(char *path, const char *tracedir, const char *loom, int pid)
 		die("mkdir %s failed:", path);
 }
 
+/* Writes in dst the absolute version of path, so it keeps naming the same
+ * directory if the program changes its working directory later on. */
+static void
+absolute_path(char dst[PATH_MAX], const char *path)
+{
+	if (path[0] == '/') {
+		if (snprintf(dst, PATH_MAX, "%s", path) >= PATH_MAX)
+			die("path too long: %s", path);
+		return;
+	}
+
+	char cwd[PATH_MAX];
+	if (getcwd(cwd, PATH_MAX) == NULL)
+		die("getcwd failed:");
+
+	if (snprintf(dst, PATH_MAX, "%s/%s", cwd, path) >= PATH_MAX)
+		die("path too long: %s/%s", cwd, path);
+}
+
 static void
 create_proc_dir(const char *loom, int pid)
 {
 	char *tmpdir = getenv("OVNI_TMPDIR");
 	char *tracedir = getenv("OVNI_TRACEDIR");
+	char abs_tmpdir[PATH_MAX];
+	char abs_tracedir[PATH_MAX];
 
 	/* Use default tracedir if user did not request any */
 	if (tracedir == NULL)
 		tracedir = OVNI_TRACEDIR;
+
+	absolute_path(abs_tracedir, tracedir);
+	tracedir = abs_tracedir;
+
+	if (tmpdir != NULL) {
+		absolute_path(abs_tmpdir, tmpdir);
+		tmpdir = abs_tmpdir;
+	}
 
 	if (snprintf(rproc.loomdir, PATH_MAX, "%s/loom.%s", tmpdir, loom) >= PATH_MAX)
 		die("loom path too long: %s/loom.%s", tmpdir, loom);
